@@ -1,6 +1,7 @@
 package main
 
 import (
+	"context"
 	"errors"
 	"fmt"
 	"reflect"
@@ -41,6 +42,19 @@ var c12Types = map[string]reflect.Type{
 	"opts":   c12MapT,
 	"ctxS":   c12CtxST,
 	"ctxI":   c12CtxIT,
+	// interface types that are NOT helper contexts although a plush.HelperContext value would fit in them
+	// (stage F: parameters left without an argument)
+	"gctx": reflect.TypeOf((*context.Context)(nil)).Elem(),
+	"hcx":  reflect.TypeOf((*hctx.Context)(nil)).Elem(),
+	"f64":  reflect.TypeOf(float64(0)),
+	"iptr": reflect.TypeOf((*int)(nil)),
+}
+
+// c12CtxVal is a context.Context of the oracle's own (argument kind 'c'): assignable to context.Context and
+// interface{}, to nothing else of the family.
+type c12CtxVal struct {
+	context.Context
+	id int
 }
 
 // tails: what follows the fixed parameters
@@ -166,12 +180,18 @@ func c12Val(v reflect.Value) string {
 		}
 		v = v.Elem()
 	}
+	if v.Type() == c12CtxST {
+		return "plush.HelperContext:<live>"
+	}
 	switch v.Kind() {
 	case reflect.Map, reflect.Slice:
 		if v.Len() == 0 {
 			return v.Type().String() + ":<empty>"
 		}
 	case reflect.Ptr:
+		if v.IsNil() {
+			return v.Type().String() + ":<nil>"
+		}
 		return v.Type().String() + ":<pointer>"
 	}
 	return fmt.Sprintf("%s:%#v", v.Type(), v.Interface())
@@ -226,6 +246,10 @@ func c12MakeFn(sig c12Sig, rec *c12Rec) interface{} {
 
 const c12ArgKinds = "isbnhl" // int, string, bool, nil, hash literal, []string variable
 
+// c12ArgKindsExt: plus 'c', a context.Context variable, and 'f', a float literal (stage F and replay only;
+// stages A-C enumerate c12ArgKinds)
+const c12ArgKindsExt = c12ArgKinds + "cf"
+
 type c12Call struct {
 	args string // one letter of c12ArgKinds per argument
 	blk  bool
@@ -247,6 +271,10 @@ func c12ArgText(k byte, pos int) string {
 		return `{"k` + p + `": ` + p + `}`
 	case 'l':
 		return "strs" + p
+	case 'c':
+		return "gctx" + p
+	case 'f':
+		return p + ".5"
 	}
 	return "?"
 }
@@ -264,6 +292,10 @@ func c12ArgValue(k byte, pos int) interface{} {
 		return map[string]interface{}{"k" + p: pos}
 	case 'l':
 		return []string{"x" + p}
+	case 'c':
+		return c12CtxVal{id: pos}
+	case 'f':
+		return float64(pos) + 0.5
 	}
 	return nil
 }
@@ -307,6 +339,8 @@ func c12B(b bool) string {
 type c12Want struct {
 	checked  bool     // false: the statement is silent about this pair
 	silent   string   // why it is silent
+	partial  bool     // silent about WHETHER the helper runs; if it runs, args (with "*" = anything) is what it may receive
+	omitFrom int      // partial: index in args of the first parameter that has no argument
 	err      bool     // an error that names the call; helper not invoked
 	errWhy   string   // too-many-arguments | unassignable-argument
 	badPos   int      // position of the first unassignable argument
@@ -345,7 +379,14 @@ func c12Expect(sig c12Sig, call c12Call) c12Want {
 		return w
 	}
 	if variadic && n < P-1 {
-		return c12Want{silent: "too-few-arguments-for-variadic"}
+		// silent about the outcome; but IF the helper runs it has the supplied arguments, unchanged, and nothing invented
+		pw := c12Want{silent: "too-few-arguments-for-variadic"}
+		if args, ok := c12Supplied(kinds[:n], call); ok {
+			pw.partial, pw.omitFrom = true, n
+			pw.args = append(args, c12OmittedZero(kinds[n:P-1])...)
+			pw.autoFrom = len(pw.args)
+		}
+		return pw
 	}
 	// assignability, left to right
 	for i := 0; i < n; i++ {
@@ -382,7 +423,14 @@ func c12Expect(sig c12Sig, call c12Call) c12Want {
 	}
 	missing := P - n
 	if missing > c12AutoSuffix(kinds) {
-		return c12Want{silent: "missing-parameter-that-is-not-a-trailing-options-map-or-helper-context"}
+		// The statement does not say whether such a call is an error or runs with zero values. Either way
+		// "helpers receive exactly the supplied arguments ... or are not called": IF the helper runs, the
+		// supplied arguments arrive unchanged and a parameter without an argument that is no options map /
+		// helper context holds nothing but its type's zero value (only those two are "supplied automatically").
+		pw := c12Want{silent: "missing-parameter-that-is-not-a-trailing-options-map-or-helper-context", partial: true, omitFrom: n}
+		pw.args = append(append([]string{}, w.args...), c12OmittedZero(kinds[n:])...)
+		pw.autoFrom = len(pw.args)
+		return pw
 	}
 	for i := n; i < P; i++ {
 		switch kinds[i] {
@@ -397,6 +445,48 @@ func c12Expect(sig c12Sig, call c12Call) c12Want {
 		}
 	}
 	return w
+}
+
+// c12Supplied describes the supplied arguments as fixed parameters of the given kinds receive them; ok=false
+// when one of them is not assignable.
+func c12Supplied(kinds []string, call c12Call) (args []string, ok bool) {
+	for i, k := range kinds {
+		pt := c12Types[k]
+		v := c12ArgValue(call.args[i], i)
+		ev := reflect.Zero(pt)
+		if v != nil {
+			if !reflect.TypeOf(v).AssignableTo(pt) {
+				return nil, false
+			}
+			ev = reflect.ValueOf(v).Convert(pt)
+		}
+		switch k {
+		case "ctxS":
+			args = append(args, "ctx(block=false)")
+		case "ctxI":
+			args = append(args, "ctx(nil)")
+		default:
+			args = append(args, c12Val(ev))
+		}
+	}
+	return args, true
+}
+
+// c12OmittedZero: what parameters WITHOUT an argument may hold when the helper runs although the statement
+// does not promise it runs: a helper context parameter anything ("*": it is a helper context, supplied or
+// zero), a map parameter a nil or empty map (c12Val does not tell them apart), every other parameter its
+// zero value - a nil interface, 0, "", false, a nil slice.
+func c12OmittedZero(kinds []string) []string {
+	out := []string{}
+	for _, k := range kinds {
+		switch k {
+		case "ctxS", "ctxI":
+			out = append(out, "*")
+		default:
+			out = append(out, c12Val(reflect.Zero(c12Types[k])))
+		}
+	}
+	return out
 }
 
 // ---------------------------------------------------------------------------------------------
@@ -452,6 +542,9 @@ func (g *c12Gen) check(sig c12Sig, call c12Call) {
 			if call.args[i] == 'l' {
 				ctx.Set("strs"+strconv.Itoa(i), c12ArgValue('l', i))
 			}
+			if call.args[i] == 'c' {
+				ctx.Set("gctx"+strconv.Itoa(i), c12ArgValue('c', i))
+			}
 		}
 		if call.wrap {
 			ctx.Set("tr", func(i int, v interface{}) interface{} {
@@ -474,9 +567,18 @@ func (g *c12Gen) check(sig c12Sig, call c12Call) {
 		fail("wrong-error", "call-shape-does-not-parse", "the call does not parse: "+c12Clean(o.Err.Error()))
 		return
 	}
-	if !w.checked {
+	if !w.checked && !w.partial {
 		rep.Tag("unchecked:" + w.silent)
 		return
+	}
+	if w.partial {
+		// the statement is silent about whether the helper runs (and about crashes: C04); what it says about
+		// a helper that DOES run is checked
+		rep.Tag("partial:" + w.silent)
+		if o.Kind() == "HANG" || o.Kind() == "PANIC" {
+			rep.Tag("partial:unchecked:" + o.Kind())
+			return
+		}
 	}
 	if o.Kind() == "HANG" {
 		fail("hang", "c12-call", "render did not return within 3s")
@@ -503,6 +605,35 @@ func (g *c12Gen) check(sig c12Sig, call c12Call) {
 	}
 	if rec.calls > 1 {
 		fail("wrong-output", "helper-invoked-more-than-once", fmt.Sprintf("the helper ran %d times for one call", rec.calls))
+		return
+	}
+	if w.partial {
+		if rec.calls == 0 {
+			rep.Tag("partial:not-invoked")
+			return
+		}
+		rep.Tag("partial:invoked")
+		if len(rec.got) != len(w.args) {
+			fail("wrong-output", c12DiffSite(sig, call, w, rec.got), "expected the helper, if it runs, to receive "+fmt.Sprint(w.args)+", it received "+fmt.Sprint(rec.got))
+			return
+		}
+		for i := range rec.got {
+			if w.args[i] == "*" || w.args[i] == rec.got[i] {
+				continue
+			}
+			if i >= w.omitFrom {
+				fail("wrong-output", "omitted-parameter-not-zero", fmt.Sprintf("parameter %d (%s) has no argument and is neither a trailing options map nor a helper context: nothing may be supplied for it (zero value %s, or no call); the helper received %s - all arguments: %v",
+					i, kinds[i], w.args[i], rec.got[i], rec.got))
+			} else {
+				fail("wrong-output", "arg-value-changed", "expected the helper, if it runs, to receive "+fmt.Sprint(w.args)+", it received "+fmt.Sprint(rec.got))
+			}
+			return
+		}
+		if call.wrap && len(rec.trace) != len(call.args) {
+			fail("wrong-output", "arg-not-evaluated", fmt.Sprintf("the helper ran but only arguments %v of %d were evaluated", rec.trace, len(call.args)))
+			return
+		}
+		c12CheckResult(sig, o, fail)
 		return
 	}
 	if w.err {
@@ -553,7 +684,12 @@ func (g *c12Gen) check(sig c12Sig, call c12Call) {
 		fail("wrong-output", site, "expected the helper to receive "+fmt.Sprint(w.args)+", it received "+fmt.Sprint(rec.got))
 		return
 	}
-	// result handling
+	c12CheckResult(sig, o, fail)
+}
+
+// c12CheckResult: the helper ran once with the right arguments: its first result is the call's value, a
+// non-nil trailing error fails the render.
+func c12CheckResult(sig c12Sig, o Obs, fail func(kind, site, what string)) {
 	switch sig.res {
 	case "T,err", "err":
 		if o.Kind() != "ERR" {
@@ -717,7 +853,7 @@ func c12ParseCase(arg string) (c12Sig, c12Call, error) {
 				call.args = ""
 			}
 			for i := 0; i < len(call.args); i++ {
-				if !strings.Contains(c12ArgKinds, string(call.args[i])) {
+				if !strings.Contains(c12ArgKindsExt, string(call.args[i])) {
 					return sig, call, fmt.Errorf("bad argument kind %q", call.args[i])
 				}
 			}
@@ -774,12 +910,13 @@ func init() {
 			"Every case reaches evalCallExpression's Go-function branch; about 9%% (quick) / 5%% (thorough) of the pairs are valid calls (tag want:invoked), about 1%% are left unchecked because the statement is silent, the rest must be rejected. non-trivial = signature or call has at least one parameter/argument; distinct by case text.",
 			len(fixed), fixedFull, map[bool]string{true: "; plus all 27 lists of length 3 over int, string, interface{}", false: ""}[cfg.Thorough()],
 			len(argSeqs), maxArgs, map[bool]string{true: " (C) random pairs from the larger space: fixed lists of length 3 over all 6 types x argument lists of length 0..5.", false: ""}[cfg.Thorough()])
-		rep.Rule += c12hRule + c12eRule
+		rep.Rule += c12hRule + c12eRule + c12fRule
 		rep.Exhaustive = true
 		rep.Notes = append(rep.Notes, c12hNotes...)
 		rep.Notes = append(rep.Notes, c12eNotes...)
+		rep.Notes = append(rep.Notes, c12fNotes...)
 		rep.Notes = append(rep.Notes,
-			"Unchecked (statement silent), tagged unchecked:*: fewer arguments than fixed parameters when the missing parameter is not a trailing options map / helper context (non-variadic: more missing than the auto-suppliable suffix; variadic: fewer arguments than fixed parameters). Panics there are C04's business.",
+			"Unchecked or only partially checked (statement silent about the outcome), tagged unchecked:* / partial:*: fewer arguments than fixed parameters when the missing parameter is not a trailing options map / helper context (non-variadic: more missing than the auto-suppliable suffix; variadic: fewer arguments than fixed parameters). Panics there are C04's business.",
 			"An options map is recognised as map[string]interface{} in last position, or in second-to-last position before a helper context. nil / empty maps and slices are not distinguished (the statement says 'zero value' for nil and 'supplied' for the options map).",
 			"'names the call' is checked as: the error text contains the function's name as written in the template.",
 			"On an error outcome the evaluation trace only has to be duplicate-free and in order (a prefix); on success every argument must have been evaluated exactly once, left to right.",
@@ -836,6 +973,8 @@ func init() {
 				}
 			}
 		}
+		// (F) parameters without an argument; more parameter types (oracle_c12_omit.go)
+		c12fStage(cfg, g)
 		// (D) call histories and nested calls (oracle_c12_hist.go)
 		c12hStage(cfg, rep)
 		// (E) result handling in every position of a program (oracle_c12_pos.go)
